@@ -1,2 +1,138 @@
-import SyneTune.Model.Tuner
-/- placeholder: theorems follow -/
+import SyneTune.Lemmas.TunerCkpt
+/-
+C20 (loop side) — a checkpoint exists whenever a trial is resumed or warm-started from it.
+Property theorems only; model `Model/Tuner.lean` (incl. the generic `TrialBackend.stop_trial`,
+`stop_all` and `RemoveCheckpointsCallback.on_loop_end`), lemmas `Lemmas/TunerCkpt.lean`.
+The ghost list `deleted` records every trial for which `delete_checkpoint` has returned.
+Scheduler-side parts (which schedulers satisfy `K2Ok` / `SrcOk`) are separate.
+-/
+namespace SyneTune.C20Loop
+open SyneTune SyneTune.Tuner
+
+theorem stopDel_from (s : LState) (a : Ans) (hp : s.pc = .stopCmd) (hw : (next s a).pc = .stopDel) :
+    s.cfg.deleteCkpt = true ∧ pending (next s a) = .delete s.cur.tid := by
+  cases a with
+  | ret =>
+    simp only [next, hp] at hw ⊢
+    by_cases hdc : s.cfg.deleteCkpt = true
+    · simp only [hdc, if_true]
+      exact ⟨trivial, rfl⟩
+    · simp [hdc] at hw
+  | _ => simp [next, hp, raiseFin] at hw
+
+theorem finStopDel_from (s : LState) (a : Ans) (hp : s.pc = .finStop) (hw : (next s a).pc = .finStopDel) :
+    s.cfg.deleteCkpt = true ∧ pending (next s a) = .delete s.t := by
+  cases a with
+  | ret =>
+    simp only [next, hp] at hw ⊢
+    by_cases hdc : s.cfg.deleteCkpt = true
+    · simp only [hdc, if_true]
+      exact ⟨trivial, rfl⟩
+    · simp [hdc] at hw
+  | _ => simp [next, hp, exitRaise] at hw
+
+/-- **A checkpoint is deleted only** (a) by `stop_trial` right after the scheduler's STOP of that
+trial was carried out (`backend.stop_trial(t)` has just returned and `delete_checkpoints` is
+on), (b) because the scheduler named the trial in `trials_checkpoints_can_be_removed`, or
+(c) inside `stop_all` at the end of tuning (for a trial it has just stopped, or in the final
+sweep over all trials).  Stated on the machine: `delete_checkpoint(t)` can only be the pending
+call at four control points, each reached in exactly one way. -/
+theorem delete_only_when (s : LState) (a : Ans) (t : Nat) (h : pending (step s a) = .delete t) :
+    ((step s a).pc = .stopDel ∧ s.pc = .stopCmd ∧ pending s = .stop t ∧ s.cfg.deleteCkpt = true) ∨
+    ((step s a).pc = .delRem ∧ s.pc = .delNext ∧ t ∈ s.dels) ∨
+    ((step s a).pc = .finStopDel ∧ s.pc = .finStop ∧ pending s = .stop t ∧ s.cfg.deleteCkpt = true) ∨
+    ((step s a).pc = .finDel ∧ s.pc = .finDelNext ∧ t ∈ s.dels) := by
+  have hpend : pending (step s a) = pending (next s a) := by
+    rw [step_eq]; split
+    · rfl
+    · unfold pending; rfl
+  rw [hpend] at h
+  have hpc := step_pc s a
+  rw [hpc]
+  -- which control points have a pending `delete`
+  have hwhich : (next s a).pc = .stopDel ∨ (next s a).pc = .delRem ∨ (next s a).pc = .finStopDel ∨ (next s a).pc = .finDel := by
+    revert h; unfold pending; cases (next s a).pc <;> simp
+  have hfl := next_flow s a
+  rcases hwhich with hw | hw | hw | hw
+  · left
+    have hp : s.pc = .stopCmd := by rw [hw] at hfl; revert hfl; cases s.pc <;> simp [flow, succs]
+    obtain ⟨hdc, hpd⟩ := stopDel_from s a hp hw
+    rw [hpd] at h
+    injection h with h
+    exact ⟨hw, hp, by unfold pending; rw [hp, h], hdc⟩
+  · right; left
+    have hp : s.pc = .delNext := by rw [hw] at hfl; revert hfl; cases s.pc <;> simp [flow, succs]
+    refine ⟨hw, hp, ?_⟩
+    revert h hw; simp only [next, hp]
+    cases hd : s.dels with
+    | nil => simp
+    | cons x xs => simp [pending]; intro h; rw [← h]; exact Or.inl rfl
+  · right; right; left
+    have hp : s.pc = .finStop := by rw [hw] at hfl; revert hfl; cases s.pc <;> simp [flow, succs]
+    obtain ⟨hdc, hpd⟩ := finStopDel_from s a hp hw
+    rw [hpd] at h
+    injection h with h
+    exact ⟨hw, hp, by unfold pending; rw [hp, h], hdc⟩
+  · right; right; right
+    have hp : s.pc = .finDelNext := by rw [hw] at hfl; revert hfl; cases s.pc <;> simp [flow, succs]
+    refine ⟨hw, hp, ?_⟩
+    revert h hw; simp only [next, hp]
+    cases hd : s.dels with
+    | nil => simp
+    | cons x xs => simp [pending]; intro h; rw [← h]; exact Or.inl rfl
+
+/-- every deleted checkpoint belongs to a trial the scheduler stopped (it is in
+`trials_scheduler_stopped`, or its `on_trial_remove` after STOP is the pending call) or named
+removable — at every point of every run inside the loop -/
+theorem deleted_only_stopped_or_named (c : Cfg) (as : List Ans)
+    (hK2 : Along K2Ok (init c) as) (hSrc : Along SrcOk (init c) as) (hf : finPc (run (init c) as).pc = false) :
+    ∀ t ∈ (run (init c) as).deleted,
+      t ∈ (run (init c) as).schedStopped ∨ t ∈ (run (init c) as).removableSaid ∨
+      ((run (init c) as).pc = .removeS ∧ t = (run (init c) as).cur.tid) :=
+  (YInv_run c as hK2 hSrc).y1 hf
+
+/-- the trials removed by `RemoveCheckpointsCallback` are the ones the scheduler named -/
+theorem removal_callback_deletes_named (c : Cfg) (as : List Ans)
+    (hK2 : Along K2Ok (init c) as) (hSrc : Along SrcOk (init c) as) (hp : (run (init c) as).pc = .delRem) :
+    pending (run (init c) as) = .delete (run (init c) as).t ∧ (run (init c) as).t ∈ (run (init c) as).removableSaid :=
+  ⟨by unfold pending; rw [hp], (YInv_run c as hK2 hSrc).y2' hp⟩
+
+/-- **A resumed trial still has its checkpoint** — given contract K (resume only for a trial
+whose run this scheduler ended with PAUSE, `KOk`; never for one it named removable, `K2Ok`) and
+contract B: when `backend.resume_trial(id)` is the pending call, `delete_checkpoint(id)` has
+never been carried out. -/
+theorem resume_has_ckpt (c : Cfg) (as : List Ans)
+    (hB : Along BOk (init c) as) (hK : Along KOk (init c) as)
+    (hK2 : Along K2Ok (init c) as) (hSrc : Along SrcOk (init c) as)
+    (hp : (run (init c) as).pc = .resumeCmd) :
+    pending (run (init c) as) = .resume (run (init c) as).sId (run (init c) as).sRCfg ∧
+    (run (init c) as).sId ∉ (run (init c) as).deleted := by
+  refine ⟨by unfold pending; rw [hp], fun hd => ?_⟩
+  have hY := YInv_run c as hK2 hSrc
+  obtain ⟨_, hI⟩ := SK_run c as hB hK
+  have hb := hI (by rw [hp]; rfl)
+  have hpz := hb.rg.regResume hp
+  rcases hY.y1 (by rw [hp]; rfl) _ hd with h1 | h1 | h1
+  · have := hb.dd.dead _ h1
+    rw [hpz] at this; cases this
+  · exact hY.y3 hp h1
+  · rw [hp] at h1; exact nomatch h1.1
+
+/-- **Warm start (population based training), partial.** If the scheduler never warm-starts from
+a trial it has stopped or named removable (`SrcOk`; for PBT: the clone source is not stopped
+between the clone decision and the next `suggest`), then whenever `copy_checkpoint(src, new)`
+is the pending call the checkpoint of `src` has not been deleted.
+The full statement (without `SrcOk`) is false for the loop: `pbt_counterexample`. -/
+theorem pbt_partial (c : Cfg) (as : List Ans)
+    (hK2 : Along K2Ok (init c) as) (hSrc : Along SrcOk (init c) as)
+    (hp : (run (init c) as).pc = .copyCmd) (src : Nat) (hs : (run (init c) as).sCkpt = some src) :
+    pending (run (init c) as) = .copy src (run (init c) as).sId ∧ src ∉ (run (init c) as).deleted := by
+  refine ⟨by unfold pending; rw [hp, hs]; rfl, fun hd => ?_⟩
+  have hY := YInv_run c as hK2 hSrc
+  obtain ⟨h1, h2⟩ := hY.y4 (Or.inr hp) src hs
+  rcases hY.y1 (by rw [hp]; rfl) _ hd with h3 | h3 | h3
+  · exact h1 h3
+  · exact h2 h3
+  · rw [hp] at h3; exact nomatch h3.1
+
+end SyneTune.C20Loop
